@@ -248,6 +248,18 @@ pub fn run() -> Report {
         p.wit = vec![vec![n, 3]];
         cases.push(Case { coin: "bitcoin", verify: true, txs: vec![p], hdr: None, n_blocks: 3, label: format!("witness_item_len={:#x}", n) });
     }
+    // mixed spends: witness stacks that differ from input to input - empty first, in the middle, last (an input without witness
+    // data has an empty stack, it does not end the witness section)
+    for (k, stacks) in [vec![vec![], vec![2usize, 3]], vec![vec![2, 3], vec![], vec![1]], vec![vec![2, 3], vec![]], vec![vec![], vec![], vec![72, 33]], vec![vec![0], vec![], vec![0, 0], vec![], vec![5]]].into_iter().enumerate() {
+        for coin in ["bitcoin", "litecoin"] {
+            let mut p = base.clone();
+            p.segwit = true;
+            p.sig_lens = vec![1; stacks.len()];
+            p.wit = stacks.clone();
+            // two of them in one block, an ordinary transaction behind them (a reader that runs out of step shows there)
+            cases.push(Case { coin, verify: k % 2 == 0, txs: vec![p.clone(), base.clone(), p], hdr: None, n_blocks: 3, label: format!("mixed witness stacks #{}", k) });
+        }
+    }
     // data-carrier outputs with long texts: multi-byte characters across every byte offset up to 200
     for coin in ["bitcoin", "testnet3", "litecoin", "dogecoin"] {
         let mut p = base.clone();
